@@ -480,7 +480,7 @@ func jsQuoteSoy(text string) string {
 		case '\f':
 			q += "\\f"
 		default:
-			q += string(c)
+			q += text[i : i+1]
 		}
 	}
 	return q + "'"
@@ -489,8 +489,14 @@ func jsQuoteSoy(text string) string {
 // H_jsSource: a string literal of n symbolic ASCII characters written in template source (as a
 // print, with autoescaping cancelled) through the real parser and the generator: the emitted
 // literal denotes exactly the characters the source literal denotes.
-func H_jsSource(n int) {
-	text := jsSymText(n, 0)
+func H_jsSource(n int) { h_jsSource(n, 0) }
+
+// H_jsSourceX: the same with a non-ASCII character beside the symbolic ones (extra as in
+// jsSymText: 1 a two-byte character after them, 4 a character outside the BMP before them).
+func H_jsSourceX(n, extra int) { h_jsSource(n, extra) }
+
+func h_jsSource(n, extra int) {
+	text := jsSymText(n, extra)
 	for i := 0; i < len(text); i++ {
 		verifAssume(text[i] >= 0x20 || text[i] == '\n' || text[i] == '\t' || text[i] == '\r')
 		verifAssume(text[i] != '{' && text[i] != '}') // (braces end the tag: not spellable inside a print)
